@@ -157,7 +157,14 @@ def build(only_proofs_ok=False):
             shutil.copy(os.path.join(REPO, "go.sum"), os.path.join(hs, "go.sum"))
         except OSError:
             pass
-        rc, o, e = sh(["go", "build", "-tags", "verif", "-o", HARNESS, "."], cwd=hs, env=GOENV, timeout=1200)
+        modargs = []
+        if os.path.realpath(REPO) != "/repo":
+            # development aid: build against another checkout (e.g. a scratch worktree with a mutation)
+            mf = os.path.join(BUILD, "harness.mod")
+            open(mf, "w").write(open(os.path.join(hs, "go.mod")).read().replace("=> /repo", "=> " + os.path.realpath(REPO)))
+            shutil.copy(os.path.join(REPO, "go.sum"), os.path.join(BUILD, "harness.sum"))
+            modargs = ["-modfile=" + mf]
+        rc, o, e = sh(["go", "build"] + modargs + ["-tags", "verif", "-o", HARNESS, "."], cwd=hs, env=GOENV, timeout=1200)
         if rc != 0:
             raise BuildError("harness-build", o + e)
         notes["t_harness"] = round(time.time() - t3, 1)
